@@ -710,8 +710,10 @@ func (w *World) Settle(max time.Duration) ([]Leftover, error) {
 			ended[t.StartTS] = t
 		}
 	}
-	deadline := time.Now().Add(max)
-	for {
+	// bounded by polls of >= 20 ms each, not by one wall-clock deadline: a pause or starvation of the whole process
+	// then costs one poll instead of the whole allowance (the result feeds a verdict)
+	polls := int(max / (20 * time.Millisecond))
+	for poll := 0; ; poll++ {
 		w.Cl.Drain(3*time.Millisecond, time.Second)
 		locks, err := probe.ScanLocks(context.Background(), nil, scanEnd, math.MaxUint64)
 		if err != nil {
@@ -723,7 +725,7 @@ func (w *World) Settle(max time.Duration) ([]Leftover, error) {
 				left = append(left, Leftover{string(l.Key), l.TxnID, l.LockType.String(), t.ID, t.Ended})
 			}
 		}
-		if len(left) == 0 || time.Now().After(deadline) {
+		if len(left) == 0 || poll >= polls {
 			return left, nil
 		}
 		time.Sleep(20 * time.Millisecond)
